@@ -685,7 +685,7 @@ func (w *world) doOp(ctx context.Context, ts *taskState, op sim.Op, i int) {
 		w.mutTok.Unlock()
 	}
 	cv.register(&o)
-	e.Logf("%s %s -> %s", ts.name, op.String(), w.canon(o.String()))
+	e.Logf("%s %s -> %s", ts.name, w.canon(op.String()), w.canon(o.String()))
 	if strings.HasPrefix(o.Err, "other:") {
 		e.Violate(w.prop(), "undocumented_error", "%s %s failed with an error outside the contract (no fault was injected): %s", ts.name, opDesc(op), o.Err[6:])
 		return
@@ -806,7 +806,7 @@ func (w *world) shadow(f func(m *model) string) {
 	w.shadowMsg = f(w.mN)
 }
 
-func opDesc(op sim.Op) string { return op.String() }
+func opDesc(op sim.Op) string { return canonStr(op.String()) }
 
 // canon replaces version strings by v1,v2,... in order of first appearance so
 // that the trace hash does not depend on ULID entropy.
